@@ -133,12 +133,16 @@ def oracle_c05(case, out, raw):
                         c["FunctionName"] = new
 
         # a chained call `old().m()` names its receiver by the callee before it: that text is renamed with it
+        import re
+        pat = re.compile(r"\b(%s|%s)\b" % (re.escape(old), re.escape(new)))
+
         def chain(nodes):
             for n in nodes:
                 for f in n["Functions"]:
                     for c in f["FunctionCalls"]:
-                        if c["NodeName"] in (old, new):
-                            c["NodeName"] = "<the renamed callee>"
+                        # the receiver of a chained call is recorded as the callee before it (`old`) or as its text (`old()`)
+                        if c["NodeName"] in (old, new) or "(" in c["NodeName"]:
+                            c["NodeName"] = pat.sub("<the renamed callee>", c["NodeName"])
             return nodes
         a = canon_model(chain(strip_pos(out["after"])))
         b = canon_model(chain(strip_pos(exp_model)))
